@@ -6,17 +6,46 @@ use std::io::Write;
 use rustyline::error::ReadlineError;
 use rustyline::Editor;
 
+// Are all lists opened by the text closed again? Parentheses and semicolons inside strings,
+// |identifiers| and character literals are text, not structure, and comments are skipped.
 fn check_bracket_closed(chars: impl Iterator<Item = char>) -> bool {
+    #[derive(Clone, Copy)]
+    enum State {
+        Code,
+        Comment,
+        String,
+        StringEscape,
+        QuotedIdentifier,
+        Hash,
+        Character,
+    }
     let mut count = 0;
-    let mut in_comment = false;
+    let mut state = State::Code;
     for c in chars {
-        match (c, in_comment) {
-            ('(', false) => count += 1,
-            (')', false) => count -= 1,
-            (';', false) => in_comment = true,
-            ('\n', true) => in_comment = false,
-            _ => (),
-        }
+        state = match (state, c) {
+            (State::Comment, '\n') | (State::Comment, '\r') => State::Code,
+            (State::Comment, _) => State::Comment,
+            (State::String, '\\') => State::StringEscape,
+            (State::String, '"') => State::Code,
+            (State::String, _) | (State::StringEscape, _) => State::String,
+            (State::QuotedIdentifier, '|') => State::Code,
+            (State::QuotedIdentifier, _) => State::QuotedIdentifier,
+            (State::Character, _) => State::Code,
+            (State::Hash, '\\') => State::Character,
+            (State::Code, '(') | (State::Hash, '(') => {
+                count += 1;
+                State::Code
+            }
+            (State::Code, ')') | (State::Hash, ')') => {
+                count -= 1;
+                State::Code
+            }
+            (State::Code, ';') | (State::Hash, ';') => State::Comment,
+            (State::Code, '"') | (State::Hash, '"') => State::String,
+            (State::Code, '|') | (State::Hash, '|') => State::QuotedIdentifier,
+            (State::Code, '#') | (State::Hash, '#') => State::Hash,
+            (State::Code, _) | (State::Hash, _) => State::Code,
+        };
     }
     count <= 0
 }
